@@ -30,7 +30,7 @@ PINNED = ["C09_full", "C09_refuted", "C09_partial", "C09_step", "C09_abs", "C09_
 # specification of read are parametric in this flag (fx_read) and the theorems are proved for both settings; the
 # registered instance is the one that transcribes the code in /repo. When the repair is committed set this to "r"
 # and turn the finding: line of read-remainder-rejoined into a fixed: line. $C09_FIXES overrides (private worktrees).
-FIXES_IN_TREE = ""
+FIXES_IN_TREE = "r"
 TRUSTED = [
     "Coq 8.16.1 kernel (coqc; coqchk in thorough); vm_compute only in Example witnesses and refutation witnesses",
     "hand transcription of set_env/get_env/remove_env/expand_one_env's lookup, drain_env_tokens, run_proc, the child "
